@@ -115,6 +115,7 @@ public:
     //
     bool    simplify     ();                        // Removes already satisfied clauses.
     void    declareVarsToTheories();                 // Declare the seen variables to the theories
+    virtual bool isVarNeededForModelExtension(Var) const { return false; } // Occurs in a clause saved for model extension
     bool    solve        ( const vec< Lit > & assumps );                 // Search for a model that respects a given set of assumptions.
 
     void    toDimacs     (FILE* f, const vec<Lit>& assumps);            // Write CNF to file in DIMACS-format.
